@@ -76,6 +76,9 @@ def cases(tier, seed):
     for n in (50, 257, 1024, 2000):
         for pattern in range(3):
             yield dict(kind='large', n=n, pattern=pattern)
+    # single-precision forecasts with MANY bins: the Poisson mean of the L-test is the forecast total (a running float32 sum drifts)
+    for nc, nm, pattern in ((2000, 90, 'uniform'), (1500, 100, 'ramp'), (4000, 50, 'two-level')):
+        yield dict(kind='ltest_big', nc=nc, nm=nm, pattern=pattern)
     for s in SEEDS:
         yield dict(kind='seed', seed=s)
     yield dict(kind='inject_multi')
@@ -297,6 +300,57 @@ def run_inject1(case, failures, hsh):
     if N:
         check_quantile(res, failures, site, case)
     return 1, 0, 1
+
+
+# ----------------------------------------------------------------------------- kind: ltest_big (float32, ~2e5 bins)
+def run_ltest_big(case, failures, hsh):
+    """L-test on a float32 forecast of nc x nm bins under a scripted numpy.random: the mean handed to numpy.random.poisson
+    must be the forecast total (exact sum of the stored single-precision rates, relative tolerance 1e-5 - two orders above
+    the error of any pairwise / double-precision summation of 2e5 terms, two orders below a running float32 sum's drift),
+    and each simulated catalog holds exactly the scripted Poisson answer."""
+    import math
+    from csep.core import poisson_evaluations as pe
+    nc, nm, pattern = case['nc'], case['nm'], case['pattern']
+    reg, origins, mags = fixtures.grid_setup(nc, nm)
+    idx = numpy.arange(nc * nm, dtype=float)
+    if pattern == 'uniform':
+        data = numpy.full(nc * nm, 0.0055)
+    elif pattern == 'ramp':
+        data = 1e-3 + 1e-7 * idx
+    else:
+        data = numpy.where(idx % 2 == 0, 0.01, 0.0003)
+    data = data.astype(numpy.float32).reshape(nc, nm)
+    total = math.fsum(float(x) for x in data.ravel())
+    fc = fixtures.gridded_forecast(data, reg, mags)
+    counts = numpy.zeros((nc, nm), dtype=int)
+    counts[0, 0] = 1
+    cat = fixtures.catalog(fixtures.events_from_counts(counts, origins, mags), region=reg)
+    site = 'poisson_evaluations.likelihood_test[float32 rates, many bins]'
+    answers = [0, 1, 2]
+    sc = env.Script(uniforms=[0.5, 0.25, 0.75], poissons=answers)
+    rep = dict(case)
+    try:
+        with env.scripted_random(sc), Spy(pe) as spy:
+            pe.likelihood_test(fc, cat, num_simulations=len(answers), seed=None)
+    except env.Horizon:
+        failures.append(Fail(f'{site}|consumes-more-random-numbers-than-events|any', f'{nc}x{nm} {pattern}', rep))
+        return 0
+    except Exception as e:
+        failures.append(Fail(f'{site}|{type(e).__name__}|any', f'{type(e).__name__}: {e} {nc}x{nm} {pattern}', rep))
+        return 0
+    pcalls = [l for l in sc.log if l[0] == 'poisson']
+    hsh.update(repr([float(pc[1][0]) for pc in pcalls]).encode())
+    if len(pcalls) != len(answers) or len(spy.calls) != len(answers):
+        failures.append(Fail(f'{site}|wrong-number-of-poisson-draws|any', f'{len(pcalls)} poisson draws for {len(answers)} simulations', rep))
+        return len(answers)
+    for p, pc, call in zip(answers, pcalls, spy.calls):
+        if abs(float(pc[1][0]) - total) > 1e-5 * total:
+            failures.append(Fail(f'{site}|poisson-mean-is-not-forecast-total|any', f'mean {float(pc[1][0])!r} vs exact total of the stored rates {total!r} ({nc}x{nm} float32 bins, {pattern})', rep))
+            break
+        if call['n'] != p or call['out'].sum() != p:
+            failures.append(Fail(f'{site}|wrong-event-count|any', f'poisson answer {p}, simulated {call["out"].sum()}', rep))
+            break
+    return len(answers)
 
 
 # ----------------------------------------------------------------------------- kind: ltest (scripted numpy.random)
@@ -691,7 +745,8 @@ def run_case(case):
     numpy.random.seed(13579)
     k = case['kind']
     fn = {'inject': run_inject, 'inject1': run_inject1, 'ltest': run_ltest, 'ltest1': lambda c, f, h: run_ltest(dict(arrays=[c['rates']]), f, h),
-          'binary': run_binary, 'binary1': run_binary1, 'seed': run_seed, 'inject_multi': run_inject_multi, 'large': run_large, 'many': run_many, 'pool': run_pool}[k]
+          'binary': run_binary, 'binary1': run_binary1, 'seed': run_seed, 'inject_multi': run_inject_multi, 'large': run_large, 'many': run_many, 'pool': run_pool,
+          'ltest_big': lambda c, f, h: (run_ltest_big(c, f, h), 1, 1)}[k]
     evals, nontriv, states = fn(case, failures, hsh)
     seen, uniq = set(), []
     for f in failures:
